@@ -42,25 +42,21 @@ package main
 //             fits (IA_TA, 8 bytes per level) allocates 3.24·Σ level sizes =
 //             3.24·n²/16 ≈ 0.20·n²; 4RD (4 bytes per level, no decode copy,
 //             one buffer) 1.08·n²/8 ≈ 0.14·n².  (Measured 0.202 and 0.135.)
-//   B1 = 320  pointer-free: worst shapes are (a) a run of empty names / of
+//   B1 = 320  pointer-free: worst shape is a run of empty names / of
 //             zero-length user-class items: one 16..24-byte header per 1..2
 //             input bytes in a slice grown by append (amortised ≤ 5x for the
 //             1.25x growth regime), in both passes (ToBytes re-parses the wire
-//             form of a label set): measured 170; (b) full-length names of
-//             1-byte labels: 253²/2 ≈ 32 kB of string concatenation per 254
-//             wire bytes and pass: measured 269.
-//   B1 = 36000 with compression pointers.  NOT small, and stated as found: the
-//             decoder builds a name by `label += "." ; label += chunk`, every
-//             step reallocating the whole prefix, so a 253-byte name of 1-byte
-//             labels costs 253²/2 ≈ 32 kB — per 2-byte pointer, ≈ 16.9 kB per
-//             input byte, twice (ToBytes decodes `original` again): measured
-//             33 839 B/B, i.e. 2.2 GB and ≈ 1.9 s CPU for one 65 507-byte
-//             option.  Linear in n (the 253 cap bounds it), hence within the
-//             property's "fixed multiple", but a constant of this size is
-//             reported as an observation in the evidence (worst ratios below).
-//             When the input decodes, the check uses the exact form instead:
-//             alloc ≤ 320·n + L·names + D·n·depth + B0 with L = 280 bytes per
-//             decoded name byte (measured 267; names ≤ 127·n gives the 36000).
+//             form of a label set): measured 172.
+//   L  = 6    bytes per decoded name byte, when the input decodes:
+//             alloc ≤ 320·n + L·names + D·n·depth + B0.  A name is built in a
+//             strings.Builder (/repo 6d867a5): its buffer grows by append
+//             (≤ ~2.3x the name), in both passes.  Measured 4.6 on a fan of
+//             2-byte pointers to a 253-byte name of 1-byte labels (584 B per
+//             input byte).  Before that fix the decoder rebuilt the name by
+//             string concatenation at every label and this term was 280
+//             (33.8 kB per input byte, 2.2 GB for one 65 507-byte option).
+//   B1 = 1100 with compression-pointer octets, for the blunt envelope and for
+//             inputs that do not decode: names ≤ 127·n, so 320 + 6·127 = 1082.
 //   B1 = 16   DHCPv4 (append-grown values: ≤ 5x, + ToBytes buffer).
 //   B0 = 8192 (DHCPv4: 65536, the map growth of up to 256 entries).
 // hang: decoding uses more than 2 s of user CPU, or the wall-clock watchdog
@@ -81,10 +77,10 @@ type costConsts struct{ A1, A0, B1, B0 float64 }
 const (
 	costD = 4.0   // per-level coefficient
 	costC = 1.0   // coefficient of n²/4
-	costL = 280.0 // allocation per decoded name byte (both passes), see B1 above
+	costL = 6.0   // allocation per decoded name byte (both passes), see L above
 )
 
-func hasPtrOctet(b []byte) bool {
+func c09HasPtrOctet(b []byte) bool {
 	for _, x := range b {
 		if x&0xc0 == 0xc0 {
 			return true
@@ -93,18 +89,18 @@ func hasPtrOctet(b []byte) bool {
 	return false
 }
 
-func constsFor(entry string, b []byte) costConsts {
+func c09ConstsFor(entry string, b []byte) costConsts {
 	if entry == "v4" {
 		return costConsts{A1: 2, A0: 16384, B1: 16, B0: 65536}
 	}
-	if hasPtrOctet(b) {
-		return costConsts{A1: 144, A0: 2048, B1: 36000, B0: 8192}
+	if c09HasPtrOctet(b) {
+		return costConsts{A1: 144, A0: 2048, B1: 1100, B0: 8192}
 	}
 	return costConsts{A1: 64, A0: 2048, B1: 320, B0: 8192}
 }
 
-// entryClass groups entries for failure classes and worst-ratio records.
-func entryClass(entry string) string {
+// c09EntryClass groups entries for failure classes and worst-ratio records.
+func c09EntryClass(entry string) string {
 	if strings.HasPrefix(entry, "opt:") {
 		return "ParseOption"
 	}
@@ -119,17 +115,17 @@ func entryClass(entry string) string {
 	return entry
 }
 
-// checkCost returns the violated clauses of the numeric property.
-func checkCost(entry string, b []byte, m costMeasure) (classes []string, what []string) {
-	k := constsFor(entry, b)
+// c09CheckCost returns the violated clauses of the numeric property.
+func c09CheckCost(entry string, b []byte, m costMeasure) (classes []string, what []string) {
+	k := c09ConstsFor(entry, b)
 	n := float64(m.N)
-	ec := entryClass(entry)
+	ec := c09EntryClass(entry)
 	if m.Hang {
 		classes = append(classes, "hang:"+ec)
 		if m.DecNs < 0 {
 			what = append(what, fmt.Sprintf("decoding %d bytes did not finish within the %.0f s watchdog (probe killed)", m.N, float64(-m.DecNs)/1e9))
 		} else {
-			what = append(what, fmt.Sprintf("decoding %d bytes used %.2f s of CPU (limit %.0f s)", m.N, float64(m.DecNs)/1e9, hangLimit.Seconds()))
+			what = append(what, fmt.Sprintf("decoding %d bytes used %.2f s of CPU (limit %.0f s)", m.N, float64(m.DecNs)/1e9, c09HangLimit.Seconds()))
 		}
 		return
 	}
@@ -144,7 +140,7 @@ func checkCost(entry string, b []byte, m costMeasure) (classes []string, what []
 	}
 	all := float64(m.AllocAll)
 	// when the input decodes the label term is exact: costL per decoded name byte
-	// (names ≤ 127·n, so this is within B1(ptr)·n = 36000·n; it is much tighter
+	// (names ≤ 127·n, so this is within B1(ptr)·n = 1100·n; it is tighter
 	// for inputs that merely contain an octet ≥ 0xc0 in a length or address)
 	b1 := k.B1
 	names := 0.0
@@ -168,7 +164,7 @@ type costCase struct {
 	B           []byte
 }
 
-func measureAll(cases []costCase, workers int) []costMeasure {
+func c09MeasureAll(cases []costCase, workers int) []costMeasure {
 	out := make([]costMeasure, len(cases))
 	var wg sync.WaitGroup
 	next := make(chan int)
@@ -193,41 +189,41 @@ func measureAll(cases []costCase, workers int) []costMeasure {
 
 // ---- worst-ratio bookkeeping ---------------------------------------------------
 
-type worstRec struct {
+type c09WorstRec struct {
 	v    float64
 	desc string
 }
 
-type worstTable struct {
+type c09WorstTable struct {
 	mu sync.Mutex
-	m  map[string]worstRec
+	m  map[string]c09WorstRec
 }
 
-func (w *worstTable) note(key string, v float64, desc string) {
+func (w *c09WorstTable) note(key string, v float64, desc string) {
 	w.mu.Lock()
 	defer w.mu.Unlock()
 	if w.m == nil {
-		w.m = map[string]worstRec{}
+		w.m = map[string]c09WorstRec{}
 	}
 	if r, ok := w.m[key]; !ok || v > r.v {
-		w.m[key] = worstRec{v, desc}
+		w.m[key] = c09WorstRec{v, desc}
 	}
 }
 
-func ptrTag(b []byte) string {
-	if hasPtrOctet(b) {
+func c09PtrTag(b []byte) string {
+	if c09HasPtrOctet(b) {
 		return "ptr"
 	}
 	return "noptr"
 }
 
-func (w *worstTable) observe(c costCase, m costMeasure) {
+func (w *c09WorstTable) observe(c costCase, m costMeasure) {
 	if m.N < 256 || m.Hang || m.Died != "" {
 		return // ratios of tiny inputs only show the additive constants
 	}
 	n := float64(m.N)
-	ec := entryClass(c.Entry)
-	pt := ptrTag(c.B)
+	ec := c09EntryClass(c.Entry)
+	pt := c09PtrTag(c.B)
 	if c.Entry == "v4" {
 		pt = "any"
 	}
@@ -250,7 +246,7 @@ func (w *worstTable) observe(c costCase, m costMeasure) {
 
 // ---- mutation for the hill climb -------------------------------------------------
 
-func mutateCost(r *Rng, b []byte) []byte {
+func c09MutateCost(r *Rng, b []byte) []byte {
 	out := append([]byte{}, b...)
 	if len(out) == 0 {
 		return []byte{byte(r.U64())}
@@ -271,7 +267,7 @@ func mutateCost(r *Rng, b []byte) []byte {
 	case 3: // duplicate a chunk
 		i := r.Intn(len(out))
 		l := r.Range(1, min(64, len(out)-i))
-		if len(out)+l <= maxUDP {
+		if len(out)+l <= c09MaxUDP {
 			chunk := append([]byte{}, out[i:i+l]...)
 			at := r.Intn(len(out) + 1)
 			out = append(out[:at], append(chunk, out[at:]...)...)
@@ -281,18 +277,18 @@ func mutateCost(r *Rng, b []byte) []byte {
 		l := r.Range(1, min(16, len(out)-i))
 		out = append(out[:i], out[i+l:]...)
 	case 5: // append a compression pointer to a random earlier offset
-		if len(out)+2 <= maxUDP {
-			out = append(out, ptrTo(r.Intn(min(len(out), 16383)+1))...)
+		if len(out)+2 <= c09MaxUDP {
+			out = append(out, c09PtrTo(r.Intn(min(len(out), 16383)+1))...)
 		}
 	case 6: // append a zero-length option / item
-		if len(out)+4 <= maxUDP {
+		if len(out)+4 <= c09MaxUDP {
 			out = append(out, 0, byte(r.Pick([]int{3, 4, 5, 15, 17, 24, 25, 56, 97, 150})), 0, 0)
 		}
 	case 7: // truncate
 		out = out[:r.Intn(len(out)+1)]
 	case 8: // splice with itself
 		i := r.Intn(len(out))
-		if 2*len(out)-i <= maxUDP {
+		if 2*len(out)-i <= c09MaxUDP {
 			out = append(out, out[i:]...)
 		}
 	}
@@ -301,7 +297,7 @@ func mutateCost(r *Rng, b []byte) []byte {
 
 // ---- the oracle -------------------------------------------------------------------
 
-func isHeavyFamily(name string) bool {
+func c09IsHeavyFamily(name string) bool {
 	for _, p := range []string{"fan253", "fan127", "fan-prefixed", "fan-end", "fan-suffix"} {
 		if strings.HasPrefix(name, p) {
 			return true
@@ -310,7 +306,7 @@ func isHeavyFamily(name string) bool {
 	return false
 }
 
-func parseCostSeed(line string) (costCase, bool) {
+func c09ParseCostSeed(line string) (costCase, bool) {
 	f := strings.Fields(line)
 	switch {
 	case len(f) == 3 && f[0] == "c09":
@@ -329,7 +325,7 @@ func parseCostSeed(line string) (costCase, bool) {
 
 func oracleC09(r *Rng, n int, thorough bool, seeds []string) *OracleResult {
 	res := &OracleResult{Tags: map[string]int{}}
-	worst := &worstTable{}
+	worst := &c09WorstTable{}
 	verbose := os.Getenv("C09_VERBOSE") != ""
 	workers := 6
 	seen := map[uint64]struct{}{}
@@ -343,7 +339,7 @@ func oracleC09(r *Rng, n int, thorough bool, seeds []string) *OracleResult {
 			if m.N >= 16 {
 				seen[hashStr(c.Entry+string(c.B))] = struct{}{}
 			}
-			res.Tags[entryClass(c.Entry)+" "+ptrTag(c.B)]++
+			res.Tags[c09EntryClass(c.Entry)+" "+c09PtrTag(c.B)]++
 			if m.OK {
 				res.Tags["decoded"]++
 			} else {
@@ -356,7 +352,7 @@ func oracleC09(r *Rng, n int, thorough bool, seeds []string) *OracleResult {
 					c.Entry, c.Name, m.N, m.OK, m.AllocDec, m.AllocAll, m.Deep, m.Depth, float64(m.DecNs)/1e6,
 					float64(m.AllocAll)/nn, float64(m.Deep)/nn, float64(m.AllocAll)/(nn*float64(max(m.Depth, 1))), float64(m.AllocAll)/(nn*nn/4), m.Hang, m.Died)
 			}
-			classes, what := checkCost(c.Entry, c.B, m)
+			classes, what := c09CheckCost(c.Entry, c.B, m)
 			if m.Hang || m.Died != "" || len(classes) > 0 {
 				// a family that failed (or hung) is not fed again at larger sizes:
 				// the smallest failing member is the report, the rest only costs time
@@ -377,14 +373,14 @@ func oracleC09(r *Rng, n int, thorough bool, seeds []string) *OracleResult {
 	// 0. seeds (replay, disagreements of the cost stream)
 	var cs []costCase
 	for _, l := range seeds {
-		if c, ok := parseCostSeed(l); ok {
+		if c, ok := c09ParseCostSeed(l); ok {
 			cs = append(cs, c)
 		}
 	}
 	if len(cs) > 0 {
-		record(cs, measureAll(cs, workers))
+		record(cs, c09MeasureAll(cs, workers))
 		if n == 0 {
-			return finishC09(res, worst, seen) // replay: only the given inputs
+			return c09FinishC09(res, worst, seen) // replay: only the given inputs
 		}
 	}
 
@@ -394,10 +390,10 @@ func oracleC09(r *Rng, n int, thorough bool, seeds []string) *OracleResult {
 		sizes = []int{0, 1, 64, 300, 512, 1500, 4096, 9000, 16384, 32768}
 	}
 	fams := costFamilies()
-	for _, sz := range append(sizes, maxUDP) {
+	for _, sz := range append(sizes, c09MaxUDP) {
 		cs = cs[:0]
 		for _, f := range fams {
-			if sz == maxUDP && !thorough && isHeavyFamily(f.Name) &&
+			if sz == c09MaxUDP && !thorough && c09IsHeavyFamily(f.Name) &&
 				!((f.Entry == "label" && (f.Name == "fan253x1" || f.Name == "fan253x63")) || (f.Entry == "v6" && f.Name == "fan253x1")) {
 				continue // ~1-2 s CPU each: the full cross product is thorough-tier
 			}
@@ -406,10 +402,10 @@ func oracleC09(r *Rng, n int, thorough bool, seeds []string) *OracleResult {
 			}
 			cs = append(cs, costCase{f.Entry, f.Name, f.Build(sz)})
 		}
-		record(cs, measureAll(cs, workers))
+		record(cs, c09MeasureAll(cs, workers))
 	}
 	if n <= 0 {
-		return finishC09(res, worst, seen)
+		return c09FinishC09(res, worst, seen)
 	}
 
 	// 2. structured random inputs from the codec generators
@@ -428,7 +424,7 @@ func oracleC09(r *Rng, n int, thorough bool, seeds []string) *OracleResult {
 		case 3:
 			lab := genLabels(rr).ToBytes()
 			for k := rr.Intn(6); k > 0 && len(lab) > 0; k-- {
-				lab = append(lab, ptrTo(rr.Intn(len(lab)))...)
+				lab = append(lab, c09PtrTo(rr.Intn(len(lab)))...)
 			}
 			cs = append(cs, costCase{rr.PickStr([]string{"label", "opt:24"}), "genlabel", lab})
 		default:
@@ -436,7 +432,7 @@ func oracleC09(r *Rng, n int, thorough bool, seeds []string) *OracleResult {
 			cs = append(cs, costCase{"v6", "gen6:" + kind, b})
 		}
 	}
-	record(cs, measureAll(cs, workers))
+	record(cs, c09MeasureAll(cs, workers))
 
 	// 3. hill climbing on allocated bytes (and retained bytes) per input byte
 	type climb struct {
@@ -484,7 +480,7 @@ func oracleC09(r *Rng, n int, thorough bool, seeds []string) *OracleResult {
 			var lms []costMeasure
 			hangs := 0
 			for s := 0; s < steps && hangs < 2; s++ {
-				cand := costCase{cur.Entry, cur.Name, mutateCost(rr, cur.B)}
+				cand := costCase{cur.Entry, cur.Name, c09MutateCost(rr, cur.B)}
 				if len(cand.B) > 4096 {
 					continue // climbs stay small: ratios, not sizes, are what they look for
 				}
@@ -504,10 +500,10 @@ func oracleC09(r *Rng, n int, thorough bool, seeds []string) *OracleResult {
 		}(climbs[ci], r.Fork())
 	}
 	wg.Wait()
-	return finishC09(res, worst, seen)
+	return c09FinishC09(res, worst, seen)
 }
 
-func finishC09(res *OracleResult, worst *worstTable, seen map[uint64]struct{}) *OracleResult {
+func c09FinishC09(res *OracleResult, worst *c09WorstTable, seen map[uint64]struct{}) *OracleResult {
 	res.Distinct = len(seen)
 	keys := make([]string, 0, len(worst.m))
 	for k := range worst.m {
@@ -536,7 +532,7 @@ func finishC09(res *OracleResult, worst *worstTable, seen map[uint64]struct{}) *
 //   work, fine model   fine = nest + size   (nest6: Σ over every option at every
 //       level of its encoded length = what ToBytes writes and, for IA levels,
 //       what ReadAll copies; size: the leaves and nodes.  The input itself is
-//       not a term: the decoders read it in place, an ORO of 3000 repeated
+//       not a term: the decoders read it in place, an ORO of 3000 c09Repeated
 //       codes allocates 144 bytes.  DHCPv4: 2·size + 600 (value + the ≥ 300
 //       byte encoding); labels: 2·size (the value, and ToBytes decoding again))
 //                      real ≤ 8·fine + 4096         fine ≤ 2·real + 2048
@@ -546,27 +542,26 @@ func finishC09(res *OracleResult, worst *worstTable, seen map[uint64]struct{}) *
 //       (one-sided by nature: n·depth over-approximates the per-level copies
 //        when only a small part of the message is deeply nested; the fine model
 //        carries the lower side)
-//   labels: the model has no term for the quadratic string concatenation of
-//       the decoder (≤ 253/2 bytes allocated per retained name byte and pass).
-//       When the decoded value holds domain names, both upper sides get the
-//       extra term labelWorkPerSize·size (280, the oracle's L).
+//   labels: no extra term.  (Until /repo 6d867a5 the decoder rebuilt every name
+//       by string concatenation and both upper sides needed +280·size for
+//       values holding names; with strings.Builder label-bearing values fit the
+//       same constants: measured real/fine ≤ 5.7, real/work6 ≤ 1.4.)
 
 const (
-	fitDeepPerSize  = 7.0
-	fitDeepConst    = 512.0
-	fitSizePerDeep  = 3.0
-	fitSizeConst    = 512.0
-	fitRealPerFine  = 8.0
-	fitRealConst    = 4096.0
-	fitFinePerReal  = 2.0
-	fitFineConst    = 2048.0
-	fitRealPerWork  = 4.0
-	fitRealWConst   = 4096.0
-	labelWorkPerSize = 280.0
+	c09FitDeepPerSize  = 7.0
+	c09FitDeepConst    = 512.0
+	c09FitSizePerDeep  = 3.0
+	c09FitSizeConst    = 512.0
+	c09FitRealPerFine  = 8.0
+	c09FitRealConst    = 4096.0
+	c09FitFinePerReal  = 2.0
+	c09FitFineConst    = 2048.0
+	c09FitRealPerWork  = 4.0
+	c09FitRealWConst   = 4096.0
 )
 
 var costStreamClient = &costClient{}
-var costStreamWorst = &worstTable{}
+var costStreamWorst = &c09WorstTable{}
 
 var (
 	costFamOnce  sync.Once
@@ -574,14 +569,14 @@ var (
 	costFamOther []costFamily
 )
 
-type counter struct{ n float64 }
+type c09Counter struct{ n float64 }
 
-func (c *counter) Add(d float64) float64 { c.n += d; return c.n }
+func (c *c09Counter) Add(d float64) float64 { c.n += d; return c.n }
 
-var costMismatch = &counter{}
+var costMismatch = &c09Counter{}
 var costStreamHangs int
 
-func execCost(op string, args []string) string {
+func c09ExecCost(op string, args []string) string {
 	var entry string
 	var b []byte
 	switch {
@@ -614,7 +609,7 @@ func execCost(op string, args []string) string {
 	return fmt.Sprintf("ok %s %d %d %d %d %d", op, m.N, m.AllocAll, m.Deep, m.Depth, lab)
 }
 
-func nums(fs []string) []float64 {
+func c09Nums(fs []string) []float64 {
 	out := make([]float64, len(fs))
 	for i, f := range fs {
 		v, err := strconv.ParseFloat(f, 64)
@@ -626,8 +621,8 @@ func nums(fs []string) []float64 {
 	return out
 }
 
-// compareCost: goOut = "ok <op> n alloc deep depth lab", modelOut = "ok <numbers…>".
-func compareCost(goOut, modelOut string) bool {
+// c09CompareCost: goOut = "ok <op> n alloc deep depth lab", modelOut = "ok <numbers…>".
+func c09CompareCost(goOut, modelOut string) bool {
 	g, m := strings.Fields(goOut), strings.Fields(modelOut)
 	if len(g) == 0 || len(m) == 0 {
 		return false
@@ -644,12 +639,12 @@ func compareCost(goOut, modelOut string) bool {
 	if len(g) != 7 {
 		return false
 	}
-	gv, mv := nums(g[2:]), nums(m[1:])
+	gv, mv := c09Nums(g[2:]), c09Nums(m[1:])
 	if gv == nil || mv == nil {
 		return false
 	}
 	n, real, deep, depth, lab := gv[0], gv[1], gv[2], gv[3], gv[4]
-	af, aw := fitRealPerFine, fitRealPerWork
+	af, aw := c09FitRealPerFine, c09FitRealPerWork
 	var size, fine, work float64
 	switch g[1] {
 	case "cost6":
@@ -677,12 +672,8 @@ func compareCost(goOut, modelOut string) bool {
 	default:
 		return false
 	}
-	// label-bearing values: the string concatenation of the label decoder, at
-	// most labelWorkPerSize bytes per retained byte (both passes)
-	labTerm := 0.0
 	tag := " nolabel"
 	if lab == 1 {
-		labTerm = labelWorkPerSize * size
 		tag = " label"
 	}
 	if n >= 64 {
@@ -691,18 +682,15 @@ func compareCost(goOut, modelOut string) bool {
 		costStreamWorst.note("real/fine"+tag, real/max(fine, 1), goOut)
 		costStreamWorst.note("fine/real"+tag, fine/max(real, 1), goOut)
 		costStreamWorst.note("real/work"+tag, real/max(work, 1), goOut)
-		if lab == 1 {
-			costStreamWorst.note("(real-8*fine)/size label", (real-af*fine)/max(size, 1), goOut)
-		}
 	}
-	return deep <= fitDeepPerSize*size+fitDeepConst &&
-		size <= fitSizePerDeep*deep+fitSizeConst &&
-		real <= af*fine+labTerm+fitRealConst &&
-		fine <= fitFinePerReal*real+fitFineConst &&
-		real <= aw*work+labTerm+fitRealWConst
+	return deep <= c09FitDeepPerSize*size+c09FitDeepConst &&
+		size <= c09FitSizePerDeep*deep+c09FitSizeConst &&
+		real <= af*fine+c09FitRealConst &&
+		fine <= c09FitFinePerReal*real+c09FitFineConst &&
+		real <= aw*work+c09FitRealWConst
 }
 
-func genCostLine(r *Rng, thorough bool) (string, []string) {
+func c09GenCostLine(r *Rng, thorough bool) (string, []string) {
 	line := func(entry string, b []byte) string {
 		switch {
 		case entry == "v6":
@@ -767,15 +755,15 @@ func init() {
 	registerOracle(&Oracle{Name: "c09", Run: oracleC09})
 	register(&Stream{
 		Name:       "cost",
-		Gen:        genCostLine,
-		Exec:       execCost,
-		Compare:    compareCost,
+		Gen:        c09GenCostLine,
+		Exec:       c09ExecCost,
+		Compare:    c09CompareCost,
 		Nontrivial: func(line, out string) bool { return strings.HasPrefix(out, "ok") },
 		Extra: func() map[string]string {
 			costStreamClient.stop()
 			out := map[string]string{
-				"fit": fmt.Sprintf("deep<=%.0f*size+%.0f; size<=%.0f*deep+%.0f; real<=%.0f*fine+%.0f; fine<=%.0f*real+%.0f; real<=%.0f*work+%.0f; (+%.0f*size on both upper sides when the value holds names)",
-					fitDeepPerSize, fitDeepConst, fitSizePerDeep, fitSizeConst, fitRealPerFine, fitRealConst, fitFinePerReal, fitFineConst, fitRealPerWork, fitRealWConst, labelWorkPerSize),
+				"fit": fmt.Sprintf("deep<=%.0f*size+%.0f; size<=%.0f*deep+%.0f; real<=%.0f*fine+%.0f; fine<=%.0f*real+%.0f; real<=%.0f*work+%.0f (same constants with and without domain names)",
+					c09FitDeepPerSize, c09FitDeepConst, c09FitSizePerDeep, c09FitSizeConst, c09FitRealPerFine, c09FitRealConst, c09FitFinePerReal, c09FitFineConst, c09FitRealPerWork, c09FitRealWConst),
 			}
 			for k, w := range costStreamWorst.m {
 				d := w.desc
